@@ -8,6 +8,7 @@ import (
 	"io"
 	"math"
 	"math/rand"
+	"sync"
 
 	"github.com/golang/geo/r1"
 	"github.com/golang/geo/r3"
@@ -197,6 +198,30 @@ func sameRelations(c *mon.Case, tag string, p, q *s2.Polygon, centers []s2.Point
 	}
 }
 
+var (
+	primerOnce  sync.Once
+	primerBytes [][]byte
+)
+
+// primers returns the encodings (compressed and lossless) of a 200+40-vertex shell with a hole.
+func primers() [][]byte {
+	primerOnce.Do(func() {
+		ctr := s2.PointFromCoords(0.3, -0.5, 0.8)
+		for _, snap := range []bool{true, false} {
+			sh, ho := gen.RegularSpec(ctr, 200, 0.3, 0.1).Vs, gen.RegularSpec(ctr, 40, 0.1, 0.2).Vs
+			if snap {
+				sh, _ = gen.SnapToLevel(sh, 30)
+				ho, _ = gen.SnapToLevel(ho, 30)
+			}
+			p := s2.PolygonFromLoops([]*s2.Loop{s2.LoopFromPoints(sh), s2.LoopFromPoints(ho)})
+			var b bytes.Buffer
+			p.Encode(&b)
+			primerBytes = append(primerBytes, b.Bytes())
+		}
+	})
+	return primerBytes
+}
+
 func polygon(c *mon.Case) {
 	r := c.R
 	var loops [][]s2.Point
@@ -381,11 +406,22 @@ func polygon(c *mon.Case) {
 		c.Violation("Polygon/Encode/unknown-version", fmt.Sprintf("encoder wrote version %d", version), det(""))
 	}
 	var q s2.Polygon
+	tag := fmt.Sprintf("Polygon/v%d", version)
+	if c.I%4 == 3 {
+		// the receiver already holds another polygon (a larger one with a hole, decoded from the compressed or
+		// the lossless format): the value after Decode is the encoded one all the same
+		pr := primers()
+		if err := q.Decode(bytes.NewReader(pr[r.Intn(len(pr))])); err != nil {
+			c.M.Broken("primer polygon does not decode: " + err.Error())
+		}
+		_ = q.ContainsPoint(gen.Uniform(r))
+		tag += "/into-used-receiver"
+		c.Count("polygon.decoded_into_used_receiver", 1)
+	}
 	if err := q.Decode(src(c, enc)); err != nil {
 		c.Violation(fmt.Sprintf("Polygon/v%d/Decode/error-on-own-encoding", version), "Decode rejects the library's own encoding: "+err.Error(), det(""))
 		return
 	}
-	tag := fmt.Sprintf("Polygon/v%d", version)
 	if q.NumLoops() != p.NumLoops() {
 		c.Violation(tag+"/loop-count/wrong-answer", fmt.Sprintf("%d loops decoded, %d encoded", q.NumLoops(), p.NumLoops()), det(""))
 		return
